@@ -38,12 +38,23 @@ CHECKS = {
  "C13": (True, "runtime oracle under logical loop budgets (KspOuter/KspInner hook events): count, optimality, validity, distinctness, similarity, accept-all comparison, reachability",
          "Runs both k-shortest-path algorithms on sampled networks and configurations under logical step budgets; route count, first-route optimality, walk/loop/accumulation validity, pairwise distinctness and similarity, accept-all >= threshold counts, and error-vs-reachability are asserted per call.",
          "budgets 4-8x the legitimate loop bounds; optimality only for admissible underlying searches", "3.13"),
+
+ "C15": (True, "runtime oracle: generated CSV file sets loaded by the real Graph::from_files / CompassApp::try_from and read back through every accessor vs the generator's lists; per-edge tables checked behaviourally",
+         "Writes sampled edge/vertex file sets (plain/gzip, column layouts, counts explicit/scanned), loads them through the real loaders and compares every accessor (edges, adjacency in both views at every degree, triplets, coordinates, bindings) with the generator's lists; speed/heading/road-class rows are checked through the models the application builds from them.",
+         "ids equal row indices; gzip files named .gz", "3.15"),
+ "C16": (True, "runtime oracle: real vertex and edge r-tree plugins on generated candidate sets vs exhaustive scan under the plugin's measure and independent f64 haversine for tolerances",
+         "Runs the real RTreePlugin and EdgeRtreeInputPlugin built from generated files on sampled coordinates, tolerance placements/units and road-class/vehicle filters; the match must equal an exhaustive scan over admissible candidates, tolerance verdicts must agree with an independent haversine outside a 1 % + 3 m band, and all other query fields must be untouched.",
+         "geo's Centroid trusted; don't-care band around the tolerance", "3.16"),
  "C17": (True, "runtime oracle: real GridSearchPlugin and apply_input_plugins on sampled query/grid shapes vs nested-loop product (multiset comparison)",
          "Runs the real grid-search plugin, alone and through the application's plugin pipeline with flattening, on sampled queries; the multiset of generated queries is compared with an independent odometer product.",
          "canonical-JSON multiset comparison; object choices use axis-private keys", "3.17"),
  "C18": (True, "runtime oracle: real scc on all digraphs <=4 vertices + random/long graphs vs transitive-closure / Tarjan reference",
          "Executes the real component analysis on every digraph with <=4 vertices (thorough: also all loop-free 5-vertex digraphs) and on sampled larger graphs; a reference mutual-reachability partition decides.",
          "reference closure/Tarjan implementation in the harness; deep chains run with an enlarged stack", "3.18"),
+
+ "C20": (True, "runtime oracle: real search results rendered by the real TraversalPlugin (5 formats x route/tree), Summary and UUID plugins and CompassApp::run; WKT/WKB decoded and compared with the generator's geometry table",
+         "Real routes and trees are rendered in all five formats by the real output plugins and by the application; each rendering is decoded and compared with the SearchAppResult it was given and with the generator's geometry/identifier tables, including truncated geometry tables that must produce errors.",
+         "wkt/wkb/serde_json crates used as decoders; state vector slot order normalised when comparing two builds", "3.20"),
 }
 
 NOT_YET = "monitor not built yet in this round of work (planned in DESIGN.md section 3); no claim is made"
